@@ -1,7 +1,7 @@
 SPEC = dict(
     props_file="C10",
     legs=[dict(family="tdigest", oracles=["prop_ok"], tie_oracles=["tie_ok"], profiles=["debug", "release"],
-               mask=[0, 1, 7, 8, 9, 10, 14, 15, 17], n_quick=110, n_thorough=260)],
+               mask=[0, 1, 7, 8, 9, 10, 14, 15, 17], n_quick=110, n_thorough=200)],
     level_text="Theorems (Props/C10.v) over a branch-by-branch transcription of TDigestView::rank / quantile / cdf / pmf / "
                "check_split_points (tdigest/sketch.rs, REPAIRED code) in exact rational arithmetic, for EVERY well-formed view "
                "(means sorted, weights > 0, min <= first mean, last mean <= max, total = sum of weights, >= 1 centroid; plus "
